@@ -416,6 +416,15 @@ func TestProp_Enrollment(t *testing.T) {
 						info.WrappedRegistrationInfo = append([]byte{0x0a, byte(n)}, rnd(n)...)
 					}
 				}
+				// the bundle also has a CLEARTEXT registration-info field (the server's cache of
+				// what it unsealed); a peer can fill it in itself, so it must never count
+				clear := rapid.SampledFrom([]string{"absent", "absent", "absent", "own-nonce-and-key", "other"}).Draw(t, "cleartextRegistrationInfo")
+				switch clear {
+				case "own-nonce-and-key":
+					info.WrappingRegistrationFlowInfo = &types.WrappingRegistrationFlowInfo{CertificatePublicKeyPkix: ca.CertPkix, Nonce: nonce}
+				case "other":
+					info.WrappingRegistrationFlowInfo = &types.WrappingRegistrationFlowInfo{CertificatePublicKeyPkix: rnd(44), Nonce: rnd(32)}
+				}
 				req := vkit.Sign(info, ca.CertPriv)
 				// re-wrapped info (outside the signed bundle)
 				r.Rewrap = rapid.SampledFrom([]string{"none", "none", "none", "registered-node", "removed-node", "unknown-key-id", "other-nonce", "other-key", "garbage"}).Draw(t, "rewrapped")
@@ -549,7 +558,7 @@ func TestProp_Enrollment(t *testing.T) {
 				if err != nil {
 					r.Got += " (error)"
 				}
-				hist = append(hist, fmt.Sprintf("fetch cert=%s enc=%s nonce=%s wrapped=%s rewrapped=%s [regwrapper=%s] -> %s", r.Cert, r.Enc, r.Nonce, r.Wrapped, r.Rewrap, regName, r.Got))
+				hist = append(hist, fmt.Sprintf("fetch cert=%s enc=%s nonce=%s wrapped=%s rewrapped=%s cleartext-info=%s [regwrapper=%s] -> %s", r.Cert, r.Enc, r.Nonce, r.Wrapped, r.Rewrap, clear, regName, r.Got))
 				nontrivial := (!qualifies && oneOff) || (qualifies && opsBefore >= 2)
 				rec.Case(fmt.Sprintf("fetch/%s/model=%s", r.Path, r.Expect), strings.Join(hist, ";"), nontrivial, func() any {
 					return map[string]any{"request": r, "history": append([]string(nil), hist...), "backend": backend.String()}
